@@ -612,10 +612,17 @@ class CallMixin:
                         for f, fs in decl.fields:
                             cur.fields[f] = self.fresh(fs, f"{parts[0]}.{f}'", st)
             else:
-                if isinstance(base, VRef) and isinstance(st.heap[base.ref], ObjState):
-                    obj = st.heap[base.ref]
+                # walk down to the object that owns the last component (self.console.unwritten -> the console object)
+                cur = base
+                for comp in parts[1:-1]:
+                    o_ = st.heap.get(cur.ref) if isinstance(cur, VRef) else None
+                    cur = o_.fields.get(comp) if isinstance(o_, ObjState) else None
+                if isinstance(cur, VRef) and isinstance(st.heap[cur.ref], ObjState):
+                    obj = st.heap[cur.ref]
                     decl = self.U.records[obj.cls]
-                    obj.fields[parts[1]] = self.fresh(decl.field_sort(parts[1]), f"{m}'", st)
+                    obj.fields[parts[-1]] = self.fresh(decl.field_sort(parts[-1]), f"{m}'", st)
+                elif len(parts) > 2:
+                    raise Unsupported(f"modifies {m}: intermediate object is not a heap object")
 
     # ------------------------------------------------------------------ constructors
     def construct(self, f: VFunc, args, kwargs, st):
